@@ -437,6 +437,12 @@ fn get_single_char_punctuation_token(kind: SingleCharPunctuationKind, index: Byt
     }
 }
 
+/// Solver harnesses for single tokenizer transitions; the text lives in /verif.
+#[cfg(feature = "kiki_verif")]
+mod verif_steps {
+    include!(concat!(env!("KIKI_VERIF_HARNESS_DIR"), "/tokenize_steps.rs"));
+}
+
 #[cfg(test)]
 mod tests {
     use super::*;
